@@ -66,11 +66,27 @@ func ruleEnvShare(p *Program, r *Reporter) {
 			}
 		}
 	}
+	// wherever the evaluator builds its machine (Prepare, or a function it
+	// calls for that): every such call hands over the evaluator's environment
 	passes := false
-	for _, c := range callsTo(a.prepare, a.vmNew) {
-		for _, arg := range c.Common().Args {
-			if u, ok := arg.(*ssa.UnOp); ok && fieldKey(u.X) == "evalfilter.Eval.environment" {
+	nNew := 0
+	for _, fn := range p.LibFns {
+		if fnPkg(fn) == nil || fnPkg(fn).Pkg.Path() != Mod {
+			continue
+		}
+		for _, c := range callsTo(fn, a.vmNew) {
+			nNew++
+			this := false
+			for _, arg := range c.Common().Args {
+				if u, ok := arg.(*ssa.UnOp); ok && fieldKey(u.X) == "evalfilter.Eval.environment" {
+					this = true
+				}
+			}
+			if this && nNew == 1 {
 				passes = true
+			}
+			if !this {
+				passes = false
 			}
 		}
 	}
@@ -237,6 +253,221 @@ func ruleVoidPush(p *Program, r *Reporter) {
 // ---------------------------------------------------------------------------
 // R-FLAGONLY
 
+// flagCtx collects, over Prepare and the functions it hands the flags (or the
+// switch computed from them) to, what the flag-dependent branches do.
+type flagCtx struct {
+	names       map[string]bool
+	nSet        int
+	decisions   int
+	good        bool
+	why         string
+	monotoneBad token.Pos
+	sawFalse    bool
+	visited     map[*ssa.Function]bool
+}
+
+func flagWalk(p *Program, fn *ssa.Function, seeds map[ssa.Value]bool, depth int, ctx *flagCtx) (resultDerived bool) {
+	if depth > 3 || len(fn.Blocks) == 0 {
+		return false
+	}
+	if ctx.visited == nil {
+		ctx.visited = map[*ssa.Function]bool{}
+	}
+	if ctx.visited[fn] {
+		return false
+	}
+	ctx.visited[fn] = true
+	inRoot := func(g *ssa.Function) bool {
+		return g != nil && fnPkg(g) != nil && fnPkg(g).Pkg.Path() == Mod && len(g.Blocks) > 0
+	}
+	pureScan := func(g *ssa.Function) bool {
+		return g != nil && fnPkg(g) != nil && (fnPkg(g).Pkg.Path() == "bytes" || fnPkg(g).Pkg.Path() == "strings")
+	}
+	derived := map[ssa.Value]bool{}
+	for v := range seeds {
+		derived[v] = true
+	}
+	for changed := true; changed; {
+		changed = false
+		for _, b := range fn.Blocks {
+			for _, ins := range b.Instrs {
+				v, ok := ins.(ssa.Value)
+				if !ok || derived[v] {
+					continue
+				}
+				uses := false
+				for _, op := range ins.Operands(nil) {
+					if *op != nil && derived[*op] {
+						uses = true
+					}
+				}
+				if !uses {
+					continue
+				}
+				if c, isCall := ins.(*ssa.Call); isCall {
+					_, isB := c.Call.Value.(*ssa.Builtin)
+					g := c.Call.StaticCallee()
+					switch {
+					case isB, pureScan(g):
+					case inRoot(g):
+						// the callee sees the flags: what it does with them is
+						// checked there; its result may carry them back
+						sub := map[ssa.Value]bool{}
+						for i, arg := range c.Call.Args {
+							if derived[arg] && i < len(g.Params) {
+								sub[g.Params[i]] = true
+							}
+						}
+						if !flagWalk(p, g, sub, depth+1, ctx) {
+							continue
+						}
+					default:
+						continue
+					}
+				}
+				derived[v] = true
+				changed = true
+			}
+		}
+	}
+	// a boolean merged under branches that test derived values carries the
+	// outcome of those tests (the switch itself: true unless a flag was seen)
+	hasDerivedIf := false
+	for _, b := range fn.Blocks {
+		if iff, ok := terminator(b).(*ssa.If); ok && derived[iff.Cond] {
+			hasDerivedIf = true
+		}
+	}
+	if hasDerivedIf {
+		for _, b := range fn.Blocks {
+			for _, ins := range b.Instrs {
+				if ph, ok := ins.(*ssa.Phi); ok && isBoolType(ph.Type()) {
+					derived[ph] = true
+				}
+			}
+		}
+	}
+	// calls that hand a derived value on without using the result
+	for _, b := range fn.Blocks {
+		for _, ins := range b.Instrs {
+			cc := callOf(ins)
+			if cc == nil || !inRoot(cc.StaticCallee()) {
+				continue
+			}
+			g := cc.StaticCallee()
+			sub := map[ssa.Value]bool{}
+			for i, arg := range cc.Args {
+				if derived[arg] && i < len(g.Params) {
+					sub[g.Params[i]] = true
+				}
+			}
+			if len(sub) > 0 {
+				flagWalk(p, g, sub, depth+1, ctx)
+			}
+		}
+	}
+	// the switch only goes off: boolean merges of derived values
+	for _, b := range fn.Blocks {
+		for _, ins := range b.Instrs {
+			ph, ok := ins.(*ssa.Phi)
+			if !ok || !isBoolType(ph.Type()) || !derived[ph] {
+				continue
+			}
+			for i, e := range ph.Edges {
+				switch x := e.(type) {
+				case *ssa.Phi:
+				case *ssa.Const:
+					if x.Value != nil && x.Value.Kind() == constant.Bool && !constant.BoolVal(x.Value) {
+						ctx.sawFalse = true
+					}
+				default:
+					pd := ph.Block().Preds[i]
+					carried := false
+					for d := pd; d != nil && d.Idom() != nil; d = d.Idom() {
+						if iff, ok := terminator(d.Idom()).(*ssa.If); ok {
+							if cp, ok := iff.Cond.(*ssa.Phi); ok && derived[cp] && isBoolType(cp.Type()) && d.Idom().Succs[0] == d && len(d.Preds) == 1 {
+								carried = true
+							}
+						}
+					}
+					if carried {
+						ctx.sawFalse = true
+						continue
+					}
+					ctx.monotoneBad = ph.Pos()
+				}
+			}
+		}
+	}
+	// what the flag-dependent branches do
+	for _, b := range fn.Blocks {
+		iff, ok := terminator(b).(*ssa.If)
+		if !ok {
+			continue
+		}
+		cond := iff.Cond
+		if u, isNot := cond.(*ssa.UnOp); isNot && u.Op == token.NOT {
+			cond = u.X
+		}
+		if !derived[cond] {
+			continue
+		}
+		ctx.decisions++
+		for _, side := range b.Succs {
+			if len(side.Preds) != 1 {
+				continue
+			}
+			for _, rb := range fn.Blocks {
+				if !(rb == side || side.Dominates(rb)) {
+					continue
+				}
+				for _, ins := range rb.Instrs {
+					switch x := ins.(type) {
+					case *ssa.Call:
+						cal := x.Call.StaticCallee()
+						if cal != nil && recvNamed(cal, "environment", "Environment") && len(x.Call.Args) >= 2 {
+							if c, ok := x.Call.Args[1].(*ssa.Const); ok && c.Value != nil {
+								ctx.names[c.Value.ExactString()] = true
+								if cal.Name() == "Set" {
+									ctx.nSet++
+								}
+								continue
+							}
+						}
+						if _, isB := x.Call.Value.(*ssa.Builtin); isB || pureScan(cal) {
+							continue
+						}
+						ctx.good, ctx.why = false, "a branch that depends on the flag does more than handle the optimizer switch: it calls "+calleeFullName(&x.Call)
+					case *ssa.Store:
+						base := x.Addr
+						if fa, ok := base.(*ssa.FieldAddr); ok {
+							base = fa.X
+						}
+						if ia, ok := base.(*ssa.IndexAddr); ok {
+							base = ia.X
+						}
+						if _, isAlloc := base.(*ssa.Alloc); !isAlloc {
+							ctx.good, ctx.why = false, "a branch that depends on the flag stores into evaluator state"
+						}
+					case *ssa.MapUpdate, *ssa.Go, *ssa.Defer, *ssa.Send, *ssa.Panic:
+						ctx.good, ctx.why = false, "a branch that depends on the flag has other effects"
+					}
+				}
+			}
+		}
+	}
+	for _, b := range fn.Blocks {
+		if ret, ok := terminator(b).(*ssa.Return); ok {
+			for _, res := range ret.Results {
+				if derived[res] {
+					resultDerived = true
+				}
+			}
+		}
+	}
+	return resultDerived
+}
+
 func ruleFlagOnly(p *Program, r *Reporter) {
 	a := needAnchors(p, r)
 	if a == nil {
@@ -317,7 +548,26 @@ func ruleFlagOnly(p *Program, r *Reporter) {
 		}
 	}
 	if len(optPhis) == 0 || len(decisions) == 0 {
-		r.Undecided("optimizer switch in Prepare", p.Pos(fn.Pos()), "cannot find the boolean merged from the flags and the branch that decides on it")
+		// the scan of the flags, or the decision, sits in a function Prepare
+		// calls: follow the flags through the calls
+		ctx := &flagCtx{names: map[string]bool{}, good: true}
+		flagWalk(p, fn, map[ssa.Value]bool{flags: true}, 0, ctx)
+		mkey := "the optimizer switch is only ever turned off by a flag"
+		switch {
+		case ctx.decisions == 0:
+			r.Undecided("optimizer switch in Prepare", p.Pos(fn.Pos()), "cannot find the boolean merged from the flags and the branch that decides on it")
+			return
+		case ctx.monotoneBad.IsValid():
+			r.Fail(mkey, p.Pos(ctx.monotoneBad), "the switch is assigned a computed value while the flags are scanned: a later group of flags can turn the optimizer back on, so NoOptimize is honoured only in some positions of the arguments")
+		case !ctx.sawFalse:
+			r.Fail(mkey, p.Pos(fn.Pos()), "nothing ever turns the switch off")
+		default:
+			r.OkNT(mkey, p.Pos(fn.Pos()), "merged from the constants true (initially) and false (a flag was seen) only")
+		}
+		if ctx.good && (len(ctx.names) != 1 || ctx.nSet != 1) {
+			ctx.good, ctx.why = false, fmt.Sprintf("the flag-dependent branches of Prepare touch %d variable name(s) and set %d time(s); expected exactly the optimizer switch, set once", len(ctx.names), ctx.nSet)
+		}
+		r.Check(ctx.good, "NoOptimize only switches the optimizer", p.Pos(fn.Pos()), fmt.Sprintf("%d flag-dependent branch(es) in Prepare and the functions it hands the flags to, all handling only the optimizer switch", ctx.decisions), ctx.why)
 		return
 	}
 	// the switch starts on and can only be turned off: every value merged into
@@ -905,7 +1155,7 @@ func ruleFoldAgree(p *Program, r *Reporter) {
 				writesPush := false
 				ast.Inspect(cl, func(n ast.Node) bool {
 					if ce, ok := n.(*ast.CallExpr); ok {
-						if f, ok := calleeObj(info, ce).(*types.Func); ok && f.Name() == "PutUint16" {
+						if f, ok := calleeObj(info, ce).(*types.Func); ok && (f.Name() == "PutUint16" || writesOperandHelper(p, f)) {
 							writesPush = true
 						}
 					}
@@ -964,7 +1214,7 @@ func ruleFoldAgree(p *Program, r *Reporter) {
 				hasPut := false
 				ast.Inspect(iff.Body, func(m ast.Node) bool {
 					if ce, ok := m.(*ast.CallExpr); ok {
-						if f, ok := calleeObj(info, ce).(*types.Func); ok && f.Name() == "PutUint16" {
+						if f, ok := calleeObj(info, ce).(*types.Func); ok && (f.Name() == "PutUint16" || writesOperandHelper(p, f)) {
 							hasPut = true
 						}
 					}
@@ -995,6 +1245,35 @@ func ruleFoldAgree(p *Program, r *Reporter) {
 		}
 	}
 	_ = sort.Strings
+}
+
+// writesOperandHelper: a function of the module that encodes a 16-bit operand
+// (calls PutUint16) on behalf of its caller.
+func writesOperandHelper(p *Program, f *types.Func) bool {
+	if f.Pkg() == nil || !strings.HasPrefix(f.Pkg().Path(), Mod) {
+		return false
+	}
+	for _, fn := range p.LibFns {
+		if fn.Object() != types.Object(f) {
+			continue
+		}
+		for _, b := range fn.Blocks {
+			for _, ins := range b.Instrs {
+				if cc := callOf(ins); cc != nil {
+					name := ""
+					if cc.IsInvoke() {
+						name = cc.Method.Name()
+					} else if c := cc.StaticCallee(); c != nil {
+						name = c.Name()
+					}
+					if name == "PutUint16" {
+						return true
+					}
+				}
+			}
+		}
+	}
+	return false
 }
 
 func commutative(op string) bool { return op == "+" || op == "*" || op == "==" || op == "!=" }
